@@ -395,7 +395,9 @@ def solve_affine_equations_for(unknowns, equations):
 
     mat, rhs_mat = gaussian_elimination(mat, rhs_mat)
 
-    # FIXME /!\ Does not check for overdetermined system.
+    for i_eqn in range(len(equations)):
+        if not mat[i_eqn].any() and rhs_mat[i_eqn].any():
+            raise RuntimeError("system of equations is inconsistent")
 
     result = {}
     for j, unknown in enumerate(unknowns):
